@@ -40,28 +40,51 @@ type helper struct {
 
 const maxNest = 4
 
+// floatExpr never applies an operator to constant operands only: Go folds constant
+// expressions exactly (-0.0 is +0, 0.1+0.2 is rounded once) while classic evaluates
+// them at run time as typed float64 values, which is its documented limitation
+// ("untyped constants and arithmetic on them are evaluated as typed constants").
 func (g *gen) floatExpr(depth int) string {
+	e, _ := g.floatExpr2(depth)
+	return e
+}
+
+func (g *gen) floatExpr2(depth int) (string, bool) {
 	vars := g.Vars("float64", false)
 	if depth <= 0 || g.Chance(2, 5, "float-leaf") {
 		if len(vars) > 0 && g.Chance(3, 4, "float-var") {
-			return vars[g.Pick(len(vars), "float-which")].Name
+			return vars[g.Pick(len(vars), "float-which")].Name, false
 		}
-		return g.OneOf("float-lit", "0.5", "1.5", "2.0", "-3.25", "10.0", "0.0", "0.1", "1e3")
+		return g.OneOf("float-lit", "0.5", "1.5", "2.0", "-3.25", "10.0", "0.0", "0.1", "1e3"), true
 	}
-	a := g.floatExpr(depth - 1)
+	a, ac := g.floatExpr2(depth - 1)
+	if ac {
+		if len(vars) == 0 {
+			vrec.Label("excluded:constant-only float arithmetic (documented: constants evaluated as typed)")
+			return a, true
+		}
+		a, ac = vars[g.Pick(len(vars), "float-nonconst")].Name, false
+	}
 	switch g.Pick(6, "float-op") {
 	case 0:
-		return "(" + a + " + " + g.floatExpr(depth-1) + ")"
+		b, _ := g.floatExpr2(depth - 1)
+		return "(" + a + " + " + b + ")", false
 	case 1:
-		return "(" + a + " - " + g.floatExpr(depth-1) + ")"
+		b, _ := g.floatExpr2(depth - 1)
+		return "(" + a + " - " + b + ")", false
 	case 2:
-		return "(" + a + " * " + g.floatExpr(depth-1) + ")"
+		b, _ := g.floatExpr2(depth - 1)
+		return "(" + a + " * " + b + ")", false
 	case 3:
-		return "(" + a + " / " + g.OneOf("float-div", "2.0", "4.0", "-0.5", "3.0") + ")"
+		return "(" + a + " / " + g.OneOf("float-div", "2.0", "4.0", "-0.5", "3.0") + ")", false
 	case 4:
-		return "float64(" + g.IntExpr(1) + ")"
+		// conversion of a non-constant int (float64(constant) would itself be a constant)
+		if ints := g.Vars("int", false); len(ints) > 0 {
+			return "float64(" + ints[g.Pick(len(ints), "conv-int")].Name + ")", false
+		}
+		return "(" + a + " + 1.5)", false
 	default:
-		return "(-" + a + ")"
+		return "(-" + a + ")", false
 	}
 }
 
